@@ -299,7 +299,9 @@ func main() {
 			}
 		}
 		// comments in one gap
-		for _, c := range []string{"// c\n", " /* c */ ", "/***/", " /* * / ** */", "//\n", "/**/", "\t// \"x\" = ;\n", " /* grammar g ; */ ", "// c\r", "// c\r\n", "//\r", "/* c */\r// d\r"} {
+		for _, c := range []string{"// c\n", " /* c */ ", "/***/", " /* * / ** */", "//\n", "/**/", "\t// \"x\" = ;\n", " /* grammar g ; */ ", "// c\r", "// c\r\n", "//\r", "/* c */\r// d\r",
+			// comments that hold the delimiters of the other constructs (a commented-out declaration, a quoted star)
+			" /* \"*\" */ ", " /* *\" \"* */ ", " /* \" */ ", "// \"x\n", " /* /\\*\"/ */ ", " /* @left < e = e > ; // */ ", "// /* open\n"} {
 			c := c
 			for g := 0; g <= len(toks); g++ {
 				g := g
